@@ -35,6 +35,7 @@ mod tv;
 fn main() {
     let args = util::Args::parse();
     let cmd = args.cmd.clone();
+    util::start_call_watchdog();
     let rc = None
         .or_else(|| vmrun(&cmd, &args))
         .or_else(|| c01::dispatch(&cmd, &args))
